@@ -7,7 +7,7 @@ package wal
 import (
 	"context"
 	"fmt"
-	"io"
+	"io/ioutil"
 	"strings"
 	"time"
 
@@ -189,12 +189,14 @@ func newWalChannels() *walChannels {
 	entry := make(chan *model.Entry)
 	entries := make(chan []model.Entry)
 	count := make(chan int)
+	oops := make(chan error)
 	done := make(chan struct{})
 	return &walChannels{
 		tokens:  token,
 		entry:   entry,
 		entries: entries,
 		count:   count,
+		oops:    oops,
 		done:    done,
 	}
 }
@@ -264,23 +266,21 @@ func (w *WAL) read(ctx context.Context, token string, channels *walChannels) {
 	defer w.releaseConnection() // concurrency control
 	r, err := w.walStore.Get(ctx, token)
 	w.l.Debug("Read token", zap.String("token", token))
-	defer r.Close()
 	if err != nil {
 		channels.oops <- err
 		return
 	}
-	b := make([]byte, 1024)
-	for {
-		l, e := r.Read(b)
-		if e == io.EOF {
-			b = b[:l]
-			break
-		}
-	}
-	entry, err := model.UnmarshalWAL(b)
+	defer r.Close()
+	b, err := ioutil.ReadAll(r)
 	if err != nil {
 		channels.oops <- fmt.Errorf("token: %s, err: %s", token, err)
 		return
+	}
+	// Add stores the raw payload under its token. A blob that is not a YAML entry
+	// descriptor for this very token is the payload itself.
+	entry, err := model.UnmarshalWAL(b)
+	if err != nil || entry.Token != token {
+		entry = model.NewEntry(token, string(b))
 	}
 	channels.entry <- entry
 }
